@@ -289,6 +289,17 @@ def _theme(sp):
     sp.fill.fore_color.theme_color = MSO_THEME_COLOR.ACCENT_2
 
 
+def _theme_twice(sp):
+    """A theme colour as another producer may write it: colour transforms are a repeatable choice, and here the luminance pair
+    stands twice (next to a saturation transform the brightness setter has no business with)."""
+    sp.fill.solid()
+    sp.fill.fore_color.theme_color = MSO_THEME_COLOR.ACCENT_2
+    clr = sp.fill.fore_color._color._xClr
+    for tag, val in (("satMod", "120000"), ("lumMod", "90000"), ("lumOff", "5000"), ("lumMod", "80000"), ("lumOff", "10000")):
+        child = clr.makeelement("{http://schemas.openxmlformats.org/drawingml/2006/main}" + tag, {"val": val})
+        clr.append(child)
+
+
 def _line_chart_labels(prs, s, rnd):
     _chart(XL_CHART_TYPE.BAR_CLUSTERED)(prs, s, rnd)
     s.shapes[0].chart.plots[0].has_data_labels = True
@@ -320,6 +331,7 @@ FIXTURES = {
     "group": (6, _group),
     "solid": (6, _shape(after=_solid)),
     "theme": (6, _shape(after=_theme)),
+    "theme_twice": (6, _shape(after=_theme_twice)),
     "gradient": (6, _shape(after=lambda sp: sp.fill.gradient())),
     "patterned": (6, _shape(after=lambda sp: sp.fill.patterned())),
     "bar_chart": (6, _chart(CT.BAR_CLUSTERED)),
@@ -499,6 +511,7 @@ ROWS = [
     R("_GradientStop.position[1]", "gradient", SP + ".fill.gradient_stops[1]", fracs(0.0, 1.0, True), "frac", group="grad", cls="fraction"),
     R("ColorFormat.brightness", "solid", SP + ".fill.fore_color", fracs(-1.0, 1.0, True), "frac", covers=[("_Color", "brightness")], group="color", cls="fraction"),
     R("ColorFormat.brightness@theme", "theme", SP + ".fill.fore_color", fracs(-1.0, 1.0, True), "frac", cls="fraction"),
+    R("ColorFormat.brightness@transforms-twice", "theme_twice", SP + ".fill.fore_color", fracs(-1.0, 1.0, True), "frac", cls="fraction"),
     R("Adjustment.effective_value", "autoshape", SP, fracs(-1e6, 1e6, False, span=(-2.0, 3.0)), "frac", group="adj", corpus="adjustable", cls="fraction",
       get=lambda sp: sp.adjustments[0], set=lambda sp, v: sp.adjustments.__setitem__(0, v)),
     R("Adjustment.effective_value@arrow", "arrow", SP, fracs(-1e6, 1e6, False, span=(-2.0, 3.0)), "frac", group="adj", cls="fraction",
